@@ -129,6 +129,12 @@ Theorem C20_sampling : forall chans markers rate wfs,
 Proof. exact sample_waveforms_is_spec. Qed.
 Print Assumptions C20_sampling.
 
+(* ProgramEntry as a whole (round 4): no waveforms, no samples (and no call of _sample_waveforms); otherwise as above *)
+Theorem C20_entry_sampling : forall chans markers rate wfs,
+  entry_waveforms chans markers rate wfs = spec_entry chans markers rate wfs.
+Proof. intros chans markers rate [|w ws]; [reflexivity|]. apply sample_waveforms_is_spec. Qed.
+Print Assumptions C20_entry_sampling.
+
 (* the same as the boolean comparison used by the correspondence check (the round-1 C20_sampling_statement) *)
 Theorem C20_sampling_eqb : forall chans markers rate wfs,
   outcome_eqb (list_eqb sampled_eqb) (sample_waveforms chans markers rate wfs) (spec_sample chans markers rate wfs) = true.
